@@ -304,6 +304,6 @@ func runSeq(c SeqCase, rec *h.Rec) error {
 	return nil
 }
 
-var propSeq = h.NewProp("TestPropSeveralKeysFromTheSameSecrets", h.Budget{Quick: 800, Thorough: 16000}, genSeq, runSeq)
+var propSeq = h.NewProp("TestPropSeveralKeysFromTheSameSecrets", h.Budget{Quick: 500, Thorough: 10000}, genSeq, runSeq)
 
 func TestPropSeveralKeysFromTheSameSecrets(t *testing.T) { propSeq.Check(t) }
